@@ -291,6 +291,22 @@ def check(ctx):
             else:
                 r5.bad(V(r5.id, f.id, "init-redirect-guard:name=%s,parent=%s" % (by_name, by_parent),
                          "the configuration path is replaced by <project>/%s without the %s test" % (c.arg_str(1), "file-name" if not by_name else "no-directory-component"), c.file, c.line))
+    # ... and the generation init starts afterwards runs with init's own values: the project path, the output directory and the validation library
+    # it was given (and has just written to the configuration) are handed on as Some(..) — a None lets run_generate fall back to whatever
+    # configuration its discovery finds in the current directory, i.e. possibly another output directory than the one init was told to use
+    for f in ri:
+        for c in f.calls:
+            if c.bb not in f.reach_blocks or not short_path(c.best).endswith("run_generate"):
+                continue
+            for i_, what in ((0, "project path"), (1, "output path"), (2, "validation library")):
+                if i_ >= len(c.args):
+                    continue
+                o_ = f.origin(c.args[i_])
+                if o_[0] == "aggr" and isinstance(o_[1], dict) and o_[1].get("variant") == "None":
+                    r5.bad(V(r5.id, f.id, "init-generation-ignores-given:%s" % what.replace(" ", "-"), "run_init starts the first generation with %s = None: the %s init was "
+                             "given is ignored and the one a discovered configuration names (or the default) is used" % (what, what), c.file, c.line))
+                else:
+                    r5.ok("run_init hands its %s on to the first generation" % what)
     # ... and the file init writes is the file whose existence it examined: between an `exists()` test of the configuration path and the write
     # through that path, the path variable is neither reassigned nor mutably borrowed (set_extension / push / set_file_name after the guard make
     # init overwrite a file the "already exists, use --force" protection never looked at)
